@@ -74,7 +74,7 @@ def normal (a : Dy) : Int × Int :=
   (a.num / (2 ^ t : Nat), (t : Int) - (a.exp : Int))
 
 /-- printed as `m:e` in normal form -/
-def show (a : Dy) : String :=
+def str (a : Dy) : String :=
   let (m, e) := a.normal
   toString m ++ ":" ++ toString e
 
